@@ -452,34 +452,7 @@ func (w *World) execInstr(fr *Frame, st *State, ins ssa.Instruction) {
 	case *ssa.MapUpdate:
 		m := w.term(fr, st, ins.Map)
 		mt := ins.Map.Type().Underlying().(*types.Map)
-		if fr.top && fr.contract != nil && len(fr.contract.Asserts) > 0 {
-			ord := 0
-			for _, b := range fr.fn.Blocks {
-				for _, x := range b.Instrs {
-					if mu, ok := x.(*ssa.MapUpdate); ok {
-						ord++
-						if mu == ins {
-							goto found
-						}
-					}
-				}
-			}
-		found:
-			for _, as := range fr.contract.Asserts {
-				if as.Kind == "mapupdate" && as.Ord == ord {
-					env := w.contractEnv(fr, st, fr.entry)
-					env.vars["key"] = w.val(fr, st, ins.Key)
-					env.vars["value"] = w.val(fr, st, ins.Value)
-					env.vars["map"] = w.val(fr, st, ins.Map)
-					props := as.Clause.Props
-					if len(props) == 0 {
-						props = fr.contract.Props
-					}
-					o := w.oblige("assert", fmt.Sprintf("at.mapupdate%d.%s", ord, as.Clause.Label), st.cond, w.evalBool(env, as.Clause.Expr), as.Clause.Star, props)
-					o.Pos = as.Clause.Line
-				}
-			}
-		}
+		w.atAsserts(fr, st, "mapupdate", ins, map[string]*Val{"key": w.val(fr, st, ins.Key), "value": w.val(fr, st, ins.Value), "map": w.val(fr, st, ins.Map)})
 		w.mapStore(st, mt, m, w.term(fr, st, ins.Key), w.term(fr, st, ins.Value))
 	case *ssa.MakeMap:
 		mt := ins.Type().Underlying().(*types.Map)
@@ -780,9 +753,63 @@ func (w *World) mapLoad(st *State, mt *types.Map, m, k Term) (Term, Term) {
 	return v, ok
 }
 
+// atAsserts emits the contract's "at <kind> N assert" obligations for the
+// N-th instruction of that kind (source order) in the function under contract.
+func (w *World) atAsserts(fr *Frame, st *State, kind string, ins ssa.Instruction, vars map[string]*Val) {
+	if !fr.top || fr.contract == nil || len(fr.contract.Asserts) == 0 {
+		return
+	}
+	ord := 0
+	found := false
+	for _, b := range fr.fn.Blocks {
+		for _, x := range b.Instrs {
+			same := false
+			switch x.(type) {
+			case *ssa.MapUpdate:
+				same = kind == "mapupdate"
+			case *ssa.Lookup:
+				_, isMap := x.(*ssa.Lookup).X.Type().Underlying().(*types.Map)
+				same = kind == "lookup" && isMap
+			}
+			if same {
+				ord++
+				if x == ins {
+					found = true
+				}
+			}
+			if found {
+				break
+			}
+		}
+		if found {
+			break
+		}
+	}
+	if !found {
+		return
+	}
+	for _, as := range fr.contract.Asserts {
+		if as.Kind == kind && as.Ord == ord {
+			env := w.contractEnv(fr, st, fr.entry)
+			for k, v := range vars {
+				env.vars[k] = v
+			}
+			props := as.Clause.Props
+			if len(props) == 0 {
+				props = fr.contract.Props
+			}
+			o := w.oblige("assert", fmt.Sprintf("at.%s%d.%s", kind, ord, as.Clause.Label), st.cond, w.evalBool(env, as.Clause.Expr), as.Clause.Star, props)
+			o.Pos = as.Clause.Line
+		}
+	}
+}
+
 func (w *World) execLookup(fr *Frame, st *State, ins *ssa.Lookup) {
 	x := w.term(fr, st, ins.X)
 	k := w.term(fr, st, ins.Index)
+	if _, isMap := ins.X.Type().Underlying().(*types.Map); isMap {
+		w.atAsserts(fr, st, "lookup", ins, map[string]*Val{"key": w.val(fr, st, ins.Index), "map": w.val(fr, st, ins.X)})
+	}
 	mt, isMap := ins.X.Type().Underlying().(*types.Map)
 	if !isMap {
 		fr.vals[ins] = &Val{T: mk(SInt, "str.to_code", mk(SString, "str.at", x, k)), Typ: ins.Type()}
@@ -884,8 +911,7 @@ func (w *World) execConvert(fr *Frame, st *State, ins *ssa.Convert) {
 }
 
 func (w *World) needBytesModel() {
-	w.preAdd("bytesmodel", "(declare-fun bytesOf (String) (Array Int Int))\n(declare-fun stringOf ((Array Int Int) Int Int) String)\n(assert (forall ((s String)) (! (= (stringOf (bytesOf s) 0 (str.len s)) s) :pattern ((bytesOf s)))))")
-	w.assumption("string<->[]byte conversions are abstract inverse functions (bytesOf/stringOf)")
+	w.assumption("string<->[]byte conversions are abstract inverse functions (bytesOf/stringOf, models/00_core.spec)")
 }
 
 func (w *World) implementsFn(it types.Type) string {
